@@ -33,6 +33,7 @@ RULE += (' Also: Stop(Async)Iteration / RuntimeError subclasses with value equal
 RULE += (' Also: clean-up after the yield raising StopAsyncIteration / RuntimeError; exceptions with lenient equality.')
 RULE += (" Also: clean-up failing with a RuntimeError whose cause is another RuntimeError raised from the block's exception.")
 RULE += (" Also: proper subclasses of RuntimeError raised from the block's exception.")
+RULE += (' Also: blocks that finish the manager\'s generator themselves (manager.gen.aclose()) before they leave, normally or by an exception.')
 ASSUMPTIONS = ["contextlib.asynccontextmanager of the running interpreter is the reference",
                "__cause__/__context__ chains and messages are not compared"]
 EXHAUSTIVE = {"quick": True, "thorough": True}
@@ -165,7 +166,12 @@ def cases(tier, seed, shard, nshards):
     idx = 0
     for pre, handler, after, outcome in itertools.product(PRE, HANDLER, AFTER, OUTCOME):
         for susp in (0, 1):
-            for mode in ("with", "reuse", "decorator", "decorate_then_enter", "decorator_badcall"):
+            for mode in ("with", "reuse", "decorator", "decorate_then_enter", "decorator_badcall", "block_closes_gen"):
+                if mode == "block_closes_gen" and (outcome == "GeneratorExit" or pre != "yield" or
+                                                   handler.startswith("yield_again") or after.startswith("yield_again")):
+                    # (GeneratorExit: the documented deviation, modelled separately; a generator that answers its own
+                    # closing with another yield broke the protocol - what follows is not compared, as for "reuse")
+                    continue
                 if mode == "decorator_badcall" and outcome != "normal":
                     continue  # (the call itself fails: the body's outcome never comes into play)
                 if mode in ("decorator", "decorate_then_enter", "enter_then_decorate") and outcome == "GeneratorExit":
@@ -363,6 +369,13 @@ def trial(factory, case):
         try:
             async with manager as v:
                 log.append(("entered", v))
+                if case.get("mode") == "block_closes_gen":
+                    # the block finishes the manager's generator ITSELF (an impatient shutdown path reaching for
+                    # ``manager.gen``) and only then leaves: the exit finds a generator that is already done
+                    try:
+                        await manager.gen.aclose()
+                    except RuntimeError as err:
+                        log.append(("gen-aclose-raised", str(err)))
                 if exc is not None:
                     raise exc
             log.append("after-with")
